@@ -290,6 +290,50 @@ def rule_det(ctx):
                    reason or f'iterates the unordered container {norm(it)}: if the loop body sends, schedules or invokes callbacks '
                              f'the order differs between fresh runs (sets of id-hashed objects)', node, m)
     ctx.require(n >= 12, 'C10.det', f'only {n} set iterations found')
+    # positional use of a set: list(S)/tuple(S)/iter(S) outside a for-iterable (e.g. choice(list(S)))
+    setdicts = set()
+    for m in repo.modules.values():
+        for node in ast.walk(m.tree):
+            if isinstance(node, ast.Assign) and isinstance(node.targets[0], ast.Subscript) and isinstance(node.value, ast.Call) \
+                    and norm(node.value.func) == 'set':
+                b = node.targets[0].value
+                setdicts.add(b.attr if isinstance(b, ast.Attribute) else (b.id if isinstance(b, ast.Name) else None))
+    k = 0
+    for fi in repo.functions.values():
+        local_sets = set()
+        for node in walk_local(fi.node):
+            if isinstance(node, ast.For) and isinstance(node.iter, ast.Call) and isinstance(node.iter.func, ast.Attribute) \
+                    and node.iter.func.attr in ('items', 'values'):
+                b = node.iter.func.value
+                bn = b.attr if isinstance(b, ast.Attribute) else (b.id if isinstance(b, ast.Name) else None)
+                if bn in setdicts:
+                    tg = node.target.elts[-1] if isinstance(node.target, ast.Tuple) else node.target
+                    if isinstance(tg, ast.Name):
+                        local_sets.add(tg.id)
+        for c in U.calls(fi.node):
+            if isinstance(c.func, ast.Name) and c.func.id in ('list', 'tuple', 'iter') and len(c.args) == 1:
+                a = c.args[0]
+                isset = False
+                if isinstance(a, ast.Subscript):
+                    b = a.value
+                    bn = b.attr if isinstance(b, ast.Attribute) else (b.id if isinstance(b, ast.Name) else None)
+                    isset = bn in setdicts
+                elif isinstance(a, ast.Name):
+                    isset = a.id in local_sets
+                elif isinstance(a, ast.Attribute):
+                    isset = a.attr in names and a.attr not in ('_descendants', '_antecedents', '_constant_set')
+                if not isset:
+                    continue
+                par = getattr(c, '_parent', None)
+                if isinstance(par, (ast.For, ast.comprehension)) and par.iter is c:
+                    continue    # handled above
+                k += 1
+                ctx.ob('C10.det', f'{fi.fq}:{norm(c)}:positional-use', False,
+                       f'{norm(c)} turns an unordered set into a sequence whose order (object ids) differs between fresh runs; '
+                       f'selecting from it is not reproducible even with a fixed random seed', c, fi.module)
+    eng = repo.func('sc3.synth._engine:ContiguousBlockAllocator._find_available')
+    srt = [c for c in U.calls(eng.node) if isinstance(c.func, ast.Name) and c.func.id == 'sorted']
+    ctx.ob('C10.det', f'{eng.fq}:sorted-candidates', len(srt) >= 2, 'freed-block candidates are ordered before the random draw', eng.node, eng.module)
 
 
 def run(ctx):
@@ -328,6 +372,8 @@ MUTANTS = [
                 ('sc3/seq/eventstream.py', "        for entry in list(self._entries):", "        for entry in self._entries.copy():")]),
     dict(rule='C10.det', name='new loop over a set that sends', file='sc3/synth/server.py',
          old="    def quit_all(cls, watch_shutdown=True):", new="    def _notify_all(cls):\n        for server in cls.all:\n            server.addr.send_msg('/notify', 1)\n\n    def quit_all(cls, watch_shutdown=True):"),
+    dict(rule='C10.det', name='(fix reverted) allocator draws from list(set)', file='sc3/synth/_engine.py',
+         old="            return bi.choice(sorted(self._freed[n], key=lambda x: x.start))", new="            return bi.choice(list(self._freed[n]))"),
 ]
 
 REPAIRS = []
